@@ -3,7 +3,7 @@
 
 use std::{ffi::c_void, sync::atomic::Ordering};
 
-use crate::{
+use crate::{PBUF_TAG, 
     Completion, KERNEL, choose, fault, flip, klog, ops, ops::Outcome, probe, ring::*, sig, with_kernel, with_stats,
 };
 
@@ -117,8 +117,12 @@ pub unsafe fn ring_close(fd: i32) {
         if !r.ops.is_empty() {
             probe("ring-closed-with-inflight-ops");
         }
-        let seqs: Vec<u64> = r.ops.iter().map(|o| o.seq).collect();
-        with_kernel(|k| k.watches.retain(|w| !seqs.contains(&w.2)));
+        for o in r.ops.iter() {
+            simcore::quarantine::watch_remove(o.seq);
+        }
+        for (g, _) in r.pbufs.iter() {
+            simcore::quarantine::watch_remove(PBUF_TAG + *g as u64);
+        }
         drop(r);
     }
     unsafe { libc::close(fd) };
@@ -181,12 +185,17 @@ pub unsafe fn io_uring_register(fd: i32, opcode: u32, arg: *const c_void, nr_arg
                     return -libc::EEXIST;
                 }
                 r.pbufs.insert(bgid, PbufRing { addr: addr as usize, entries: entries as u16, head: 0 });
+                // the kernel reads the ring whenever an operation selects a buffer, until it is unregistered
+                simcore::quarantine::watch_add(addr as usize, entries as usize * 16, crate::PBUF_TAG + bgid as u64);
                 0
             }
             UNREGISTER_PBUF_RING => {
                 let bgid = unsafe { (arg as *const u8).add(12).cast::<u16>().read_unaligned() };
                 match r.pbufs.remove(&bgid) {
-                    Some(_) => 0,
+                    Some(_) => {
+                        simcore::quarantine::watch_remove(crate::PBUF_TAG + bgid as u64);
+                        0
+                    }
                     None => -libc::ENOENT,
                 }
             }
@@ -204,6 +213,7 @@ enum Event {
 /// # Safety
 /// Arguments as for `io_uring_enter(2)`.
 pub unsafe fn io_uring_enter(fd: i32, to_submit: u32, min_complete: u32, flags: u32, arg: *const c_void, _size: usize) -> i32 {
+    crate::check_memory_ledger();
     let known = with_kernel(|k| {
         k.clock_ns += k.cfg.tick_ns;
         k.rings.contains_key(&fd)
@@ -249,6 +259,9 @@ pub unsafe fn io_uring_enter(fd: i32, to_submit: u32, min_complete: u32, flags: 
             format!("kernel: submit #{} {} fd {} len {}{ud}", op.seq, ops::op_name(op.opcode), op.fd, op.len)
         });
         sig(0x4b00 + op.opcode as u64);
+        for (a, l) in op.ranges() {
+            simcore::quarantine::watch_add(a, l, op.seq);
+        }
         with_kernel(|k| {
             let r = k.rings.get_mut(&fd).unwrap();
             if op.opcode == ops::OP_ASYNC_CANCEL {
@@ -429,6 +442,17 @@ fn complete_op(fd: i32, idx: usize) {
         let (short, mend) = (k.cfg.short, k.cfg.multishot_end);
         let r = k.rings.get_mut(&fd).unwrap();
         let mut op = r.ops[idx].clone();
+        if op.opcode == ops::OP_CLOSE {
+            if let Some(o) = r.ops.iter().find(|o| o.seq != op.seq && o.uses_fd() && o.fd == op.fd && o.user_data < u64::MAX - 1) {
+                let (seq, opcode) = (o.seq, o.opcode);
+                simcore::try_with(|d| {
+                    d.raise(simcore::Violation::new(
+                        "fd-closed-in-flight",
+                        format!("descriptor {} was closed (Close operation #{}) while operation #{seq} {} on it was still pending in the kernel", op.fd, op.seq, ops::op_name(opcode)),
+                    ))
+                });
+            }
+        }
         let (outcome, digest) = if op.opcode == ops::OP_ASYNC_CANCEL {
             (Outcome::Done(-(op.off as i32), 0), 0)
         } else {
@@ -445,15 +469,17 @@ fn complete_op(fd: i32, idx: usize) {
                 klog(|| format!("kernel: complete #{} {} -> {res} flags {flags:#x}", op.seq, ops::op_name(op.opcode)));
                 sig(0x4c00 + op.opcode as u64 + ((res.clamp(-200, 200) + 200) as u64) * 64);
                 r.post(Cqe { user_data: op.user_data, res, flags });
-                k.watches.retain(|w| w.2 != op.seq);
-                k.ledger.push(Completion { seq: op.seq, user_data: op.user_data, opcode: op.opcode, fd: op.fd, res, flags, digest, at_ns: now });
+                simcore::quarantine::watch_remove(op.seq);
+                k.evseq += 1;
+                k.ledger.push(Completion { seq: op.seq, user_data: op.user_data, opcode: op.opcode, fd: op.fd, res, flags, digest, at_ns: now, addr: op.addr as usize, evseq: k.evseq });
             }
             Outcome::More(res, flags) => {
                 op.posted += 1;
                 klog(|| format!("kernel: complete #{} {} -> {res} flags {:#x} (more)", op.seq, ops::op_name(op.opcode), flags | CQE_F_MORE));
                 sig(0x4d00 + op.opcode as u64);
                 r.post(Cqe { user_data: op.user_data, res, flags: flags | CQE_F_MORE });
-                k.ledger.push(Completion { seq: op.seq, user_data: op.user_data, opcode: op.opcode, fd: op.fd, res, flags: flags | CQE_F_MORE, digest, at_ns: now });
+                k.evseq += 1;
+                k.ledger.push(Completion { seq: op.seq, user_data: op.user_data, opcode: op.opcode, fd: op.fd, res, flags: flags | CQE_F_MORE, digest, at_ns: now, addr: op.addr as usize, evseq: k.evseq });
                 r.ops[idx] = op;
             }
         }
